@@ -1,5 +1,6 @@
 (** C33 — the statements behind Properties.v: characterisation of every crash,
-    well-formed blocks never panic, refutation witnesses, non-vacuity examples. *)
+    light blocks never panic in addLtBlock, the histories that used to kill the
+    node (now survived), non-vacuity examples. *)
 From Coq Require Import List ZArith NArith Bool Lia.
 From C33 Require Import C33.Model C33.ProofsBase C33.ProofsMain C33.ProofsStep.
 Import ListNotations.
@@ -26,45 +27,28 @@ Proof.
   - exists [], ev, evs, st, p, w. auto.
 Qed.
 
-(** the two ways a step can kill the process *)
-Definition group_overrun_in_loop (c : config) (st : state) (p : pool) (ev : event) : Prop :=
-  exists now, ev = ETick now /\ step c st p ev = Crashed W_GROUP.
+(** the one way a step can still end the process: the operating system cannot
+    provide a slice as long as the hash list of the light block just received *)
 Definition oom_on_arrival (c : config) (st : state) (p : pool) (ev : event) : Prop :=
   under_recover ev = true /\ mem_ok c ev = false /\ step c st p ev = Crashed 0%N.
-Definition nil_validator_in_loop (c : config) (st : state) (p : pool) (ev : event) : Prop :=
-  exists now, ev = ETick now /\ c_noval c = true /\ step c st p ev = Crashed W_NILVAL.
 
 Lemma step_crash_kind : forall c st p ev w,
-  pend_inv QTrue st -> step c st p ev = Crashed w ->
-  group_overrun_in_loop c st p ev \/ oom_on_arrival c st p ev \/ nil_validator_in_loop c st p ev.
+  pend_inv QTrue st -> step c st p ev = Crashed w -> oom_on_arrival c st p ev.
 Proof.
-  intros c st p ev w I H. destruct ev; simpl in H.
-  - right. left. unfold recv_lt_raw in H. destruct (mem_n (lt_hash lb) (st_filter st)) eqn:Em; [discriminate|].
-    match type of H with context [add_lt ?a ?b ?c0 ?d ?e ?f ?g] => destruct (add_lt a b c0 d e f g) as [[s e0]| |] eqn:E end; try discriminate.
-    apply add_lt_fatal in E as E'. destruct E' as [h [Eh R]].
-    split; [reflexivity|]. split.
-    + simpl. rewrite Eh. apply negb_false_iff, andb_true_iff. split; [apply Z.ltb_lt|apply Z.leb_le]; lia.
-    + simpl. unfold recv_lt_raw. rewrite Em, E. reflexivity.
-  - unfold tick_raw in H. pose proof (scan_not_fatal (c_noval c) p now (c_timeout c) (st_pend st)) as NF.
-    destruct (scan (c_noval c) p now (c_timeout c) (st_pend st)) as [[[k t] e0]| |] eqn:Es; try discriminate; [|congruence].
-    assert (K : why = W_GROUP \/ (c_noval c = true /\ why = W_NILVAL)).
-    { eapply scan_panic_kind; [|exact Es]. eapply Forall_impl; [|exact I]. intros a [A _]; exact A. }
-    destruct K as [->|[NV ->]].
-    + left. exists now. split; [reflexivity|]. simpl. unfold tick_raw. rewrite Es. reflexivity.
-    + right. right. exists now. split; [reflexivity|]. split; [exact NV|]. simpl. unfold tick_raw. rewrite Es. reflexivity.
-  - discriminate.
-  - discriminate.
-  - destruct decodes; [destruct (add_req c st from height)|]; discriminate.
-  - destruct (decodes && hasmsg); discriminate.
-  - discriminate.
-  - destruct (req_scan c st (st_reqs st)); discriminate.
+  intros c st p ev w I H.
+  destruct (mem_ok c ev) eqn:M.
+  - destruct (step_alive c st p ev I M) as [st' [p' [e E]]]. congruence.
+  - destruct ev; simpl in M; try discriminate.
+    split; [reflexivity|]. split; [exact M|].
+    simpl in H |- *. unfold recv_lt_raw in *. destruct (mem_n (lt_hash lb) (st_filter st)); [discriminate|].
+    match type of H with context [add_lt ?a ?b ?c0 ?d ?e ?f ?g] => destruct (add_lt a b c0 d e f g) as [[s e0]| |] end;
+      try discriminate. reflexivity.
 Qed.
 
 Lemma crash_characterisation : forall c p0 evs,
   run c init p0 evs = None ->
   exists pre ev post st p,
-    evs = pre ++ ev :: post /\ run c init p0 pre = Some (st, p)
-    /\ (group_overrun_in_loop c st p ev \/ oom_on_arrival c st p ev \/ nil_validator_in_loop c st p ev).
+    evs = pre ++ ev :: post /\ run c init p0 pre = Some (st, p) /\ oom_on_arrival c st p ev.
 Proof.
   intros c p0 evs H.
   destruct (run_none_split _ _ _ _ H) as [pre [ev [post [st [p [w [A [B C]]]]]]]].
@@ -72,88 +56,82 @@ Proof.
   eapply step_crash_kind; [|exact C]. eapply run_inv_true; [apply init_inv|exact B].
 Qed.
 
-(** * well-formed light blocks whose groups fit never panic, not even under the recover *)
-Definition wellformed (c : config) (lb : ltblock) : bool :=
-  match lt_hdr lb with
-  | Some h => (0 <? h_txcount h) && (h_txcount h =? Z.of_nat (length (lt_sh lb)))
-              && (h_txcount h <=? c_cap c) && (h_txcount h <=? max_len)
-  | None => false
-  end.
-
-Lemma wellformed_never_panics : forall c p now from pub lb st,
-  wellformed c lb = true -> fits p lb = true ->
+(** * addLtBlock itself never panics (recovered or not), whatever the light block
+    looks like, when a slice as long as its hash list can be made *)
+Lemma add_lt_total : forall c p now from pub lb st,
+  Z.of_nat (length (lt_sh lb)) <= c_cap c -> Z.of_nat (length (lt_sh lb)) <= max_len ->
   exists st' e, add_lt c p now from pub lb st = Ok (st', e).
 Proof.
-  intros c p now from pub lb st W F. unfold wellformed in W. unfold add_lt.
-  destruct (lt_hdr lb) as [h|] eqn:Eh; [|discriminate].
-  apply andb_true_iff in W as [W W4]. apply andb_true_iff in W as [W W3].
-  apply andb_true_iff in W as [W1 W2].
-  apply Z.ltb_lt in W1. apply Z.eqb_eq in W2. apply Z.leb_le in W3. apply Z.leb_le in W4.
+  intros c p now from pub lb st HC HM. unfold add_lt.
+  destruct ((lt_txcount lb <=? 0) || (Z.of_nat (length (lt_sh lb)) <? lt_txcount lb)) eqn:E0; [eauto|].
+  apply orb_false_iff in E0 as [E1 E2]. apply Z.leb_gt in E1. apply Z.ltb_ge in E2.
+  unfold lt_txcount in *. destruct (lt_hdr lb) as [h|] eqn:Eh; [|lia].
   unfold go_make.
   replace (h_txcount h <? 0) with false by (symmetry; apply Z.ltb_ge; lia).
   replace (max_len <? h_txcount h) with false by (symmetry; apply Z.ltb_ge; lia).
   replace (c_cap c <? h_txcount h) with false by (symmetry; apply Z.ltb_ge; lia).
   simpl orb. cbv iota.
-  destruct (set_nth_some _ (repeat (@None txid) (Z.to_nat (h_txcount h))) 0%nat (lt_miner lb)) as [txs1 E1].
+  destruct (set_nth_some _ (repeat (@None txid) (Z.to_nat (h_txcount h))) 0%nat (lt_miner lb)) as [txs1 E3].
   { rewrite repeat_length. lia. }
-  rewrite E1.
-  pose proof (set_nth_length _ _ _ _ _ E1) as L1. rewrite repeat_length in L1.
+  rewrite E3.
+  pose proof (set_nth_length _ _ _ _ _ E3) as L1. rewrite repeat_length in L1.
   match goal with |- context [build p ?pd] => remember pd as pd0 eqn:Epd end.
-  destruct (build_fits_ok p pd0) as [pd' [b [e Eb]]].
+  destruct (build_ok p pd0) as [pd' [b [e Eb]]].
   - intros j Hj. rewrite Epd in *. simpl in *.
     assert (nth_error txs1 j <> None) as Hn by congruence. apply nth_error_Some in Hn. lia.
-  - unfold pd_fits. rewrite Epd. simpl. rewrite L1. apply fits_fits_at; assumption.
   - rewrite Eb. destruct b; eauto.
 Qed.
 
-(** * witnesses *)
+(** * examples *)
 Definition cfg0 : config := mkCfg 2147483648 3600000 [] false.
 Definition cfg_noval : config := mkCfg 2147483648 3600000 [] true.
 Definition plain (id : N) : ptx := mkPtx id 0 [].
 Definition grp2 : ptx := mkPtx 18%N 2 [16; 17]%N.
 Definition lt_w : ltblock := mkLt (Some (mkHdr 3 5 1%N 1%N)) (Some 11%N) [1; 2; 3]%N.
 
-(** 3 slots (miner + 2), slot 2 missing at arrival, later answered with a 2-member group *)
+(** (former finding 1) 3 slots (miner + 2), slot 2 missing at arrival, later answered
+    with a 2-member group: the group does not fit, the block stays pending *)
 Definition hist_overrun : list event :=
   [ERecvLt 0 1%N 2%N lt_w; ETick 500000000;
    EPool [(2%N, plain 1%N); (3%N, grp2)]; ETick 1500000000].
 Definition pool_w : pool := [(2%N, plain 1%N)].
 
-Lemma overrun_crashes : run cfg0 init pool_w hist_overrun = None.
-Proof. vm_compute. reflexivity. Qed.
-Lemma overrun_mem_ok : forallb (mem_ok cfg0) hist_overrun = true.
-Proof. vm_compute. reflexivity. Qed.
+Lemma overrun_survives :
+  forallb (mem_ok cfg0) hist_overrun = true /\
+  match run cfg0 init pool_w hist_overrun with
+  | Some (st, _) => map pd_txs (st_pend st) = [[Some 11; Some 1; None]%N]
+  | None => False
+  end.
+Proof. vm_compute. auto. Qed.
 
-(** TxCount = 2^40 *)
+(** (former finding 2) TxCount = 2^40 with three short hashes: dropped, only the
+    duplicate filter remembers the header hash *)
 Definition ev_oom : event := ERecvLt 0 1%N 2%N (mkLt (Some (mkHdr 1099511627776 5 1%N 1%N)) (Some 11%N) [1; 2; 3]%N).
-Lemma oom_crashes : step cfg0 init pool_w ev_oom = Crashed 0%N.
-Proof. vm_compute. reflexivity. Qed.
+Lemma oom_dropped :
+  mem_ok cfg0 ev_oom = true /\ step cfg0 init pool_w ev_oom = Alive (mkSt [1%N] [] [] 0) pool_w [].
+Proof. vm_compute. auto. Qed.
 
-(** the same block, the group arrives where it fits: the block is posted *)
+(** the same block as in [hist_overrun], the group arrives where it fits: the block is posted *)
 Definition hist_fits : list event :=
   [ERecvLt 0 1%N 2%N lt_w; ETick 500000000;
    EPool [(2%N, grp2)]; ETick 1500000000].
-Lemma hist_fits_guard : forallb (mem_ok cfg0) hist_fits = true /\ fits_hist [] hist_fits = true.
-Proof. vm_compute. auto. Qed.
-Lemma hist_fits_posts :
-  match run cfg0 init [] [ERecvLt 0 1%N 2%N lt_w; ETick 500000000] with
+Lemma hist_fits_posts : forall c, c = cfg0 \/ c = cfg_noval ->
+  match run c init [] [ERecvLt 0 1%N 2%N lt_w; ETick 500000000] with
   | Some (st, p) =>
       length (st_pend st) = 1%nat /\
-      step cfg0 st p (EPool [(2%N, grp2)]) = Alive st [(2%N, grp2)] [] /\
-      exists st', step cfg0 st [(2%N, grp2)] (ETick 1500000000)
+      step c st p (EPool [(2%N, grp2)]) = Alive st [(2%N, grp2)] [] /\
+      exists st', step c st [(2%N, grp2)] (ETick 1500000000)
                   = Alive st' [(2%N, grp2)]
                           [Post 2%N (mkBlk 5 1%N 0%N [Some 11; Some 16; Some 17]%N)]
                   /\ st_pend st' = []
   | None => False
   end.
-Proof. vm_compute. repeat split. eexists. split; reflexivity. Qed.
+Proof.
+  intros c [->| ->]; vm_compute; repeat split; eexists; split; reflexivity.
+Qed.
 
-Lemma wellformed_example : wellformed cfg0 lt_w = true /\ fits [(2%N, grp2)] lt_w = true.
-Proof. vm_compute. auto. Qed.
-
-(** validation disabled: the same honest history (the group fits) kills the loop
-    right after the completed block was handed over *)
-Lemma noval_crashes :
-  forallb (mem_ok cfg_noval) hist_fits = true /\ fits_hist [] hist_fits = true
-  /\ run cfg_noval init [] hist_fits = None.
-Proof. vm_compute. auto. Qed.
+Lemma add_lt_total_example :
+  Z.of_nat (length (lt_sh lt_w)) <= c_cap cfg0 /\ Z.of_nat (length (lt_sh lt_w)) <= max_len
+  /\ add_lt cfg0 [(2%N, grp2)] 0 1%N 2%N lt_w init
+     = Ok (init, [Post 2%N (mkBlk 5 1%N 0%N [Some 11; Some 16; Some 17]%N)]).
+Proof. vm_compute. repeat split; discriminate. Qed.
